@@ -223,6 +223,8 @@ class T:
                 else:
                     self.c.assume(self.d_nc_all(r) == self.c.fn("has_no_leaves", U, B)(p))
                 return UVal(r, v.cls if v.cls == "tuple" else "retdiff")
+        if isinstance(v, Stacked):          # a batch of diff trees (lax.scan / vmap output): the tree map acts on every element
+            return Stacked(v.n, lambda i: self.d_map(kind, v.at(i)), tag=f"d_{kind}")
         ch = externals.tree_children(I, v)
         if ch is not None:
             cs, rebuild = ch
@@ -347,6 +349,14 @@ class T:
                 self.c.assume(z3.Not(self.is_None(x.t)))
                 self.not_zero_length(x.t)
 
+    def unpack_hook(self, I, v, outs):
+        """Diff.tree_primal / tree_tangent are tree maps: they commute with tuple projection"""
+        n = len(outs)
+        for i, o in enumerate(outs):
+            pr = self.c.fn(f"proj_{n}_{i}", U, U)
+            self.c.assume(self.d_primal(o.t) == pr(self.d_primal(v.t)))
+            self.c.assume(self.d_tangent(o.t) == pr(self.d_tangent(v.t)))
+
     def sel_invert(self, I, s):
         r = self.sel_not(s.t)
         self.c.assume(self.sel_check(r) == z3.Not(self.sel_check(s.t)))
@@ -367,6 +377,7 @@ class Theory:
         self.t = t = T(I)
         I.T = t
         I.view_hook = t.view_hook
+        I.unpack_hook = t.unpack_hook
         from . import dist, incr, static_lang
         dist.install(I)
         incr.install(I)
@@ -411,6 +422,15 @@ class Theory:
         am[("GenerativeFunction", "generate")] = t.gf_generate
         am[("GenerativeFunction", "project")] = t.gf_project
         am[("GenerativeFunction", "edit")] = t.gf_edit
+
+        def req_edit(I, rq, key, tr, argdiffs):
+            # an opaque request applied to a trace: PrimitiveEditRequest.edit = tr.get_gen_fn().edit(key, tr, rq, argdiffs);
+            # for an opaque generative function gf_edit_* are uninterpreted in the request, i.e. this is the general
+            # EditRequest.edit contract (some well-formed trace of the same function at the new arguments)
+            _note("opaque sub-requests are applied through the trace's generative function (PrimitiveEditRequest.edit)")
+            g = I.call_method(tr, "get_gen_fn", [], {})
+            return I.call_method(g, "edit", [key, tr, rq, argdiffs], {})
+        am[("EditRequest", "edit")] = req_edit
         am[("ChoiceMap", "filter")] = t.chm_filter
         am[("ChoiceMap", "get_value")] = t.chm_get_value
         am[("ChoiceMap", "get_inner_map")] = t.chm_get_inner_map
